@@ -52,5 +52,6 @@ PROPS['C18'] = dict(
         dict(name='rsxx', variant='asan', harness='c18_settings.cpp', quick=1200, thorough=12000, budget=60),
         dict(name='formats', variant='asan', harness='c18_settings.cpp', quick=1200, thorough=12000, budget=60),
         dict(name='histories', variant='asan', harness='c18_settings.cpp', quick=2000, thorough=20000, budget=60, cxxflags=['-O1']),
+        dict(name='playing', variant='asan', harness='c18_settings.cpp', quick=1200, thorough=16000, budget=60, cxxflags=['-O1']),
     ],
 )
